@@ -431,6 +431,33 @@ def mutate(rng, root, layout, info, klass):
         m, e = rng.choice(cands)
         e['tag'] = 'DATA'
         rec['path'] = mtext.full_path(os.path.dirname(m), e)
+    elif klass == 'm-manifest-data-in-between':
+        # sub-Manifest X registered by a MANIFEST entry in the top-level Manifest while
+        # its nearer parent A lists it, correctly, as a plain DATA / MISC file (legal:
+        # X is a Manifest of the tree through the top-level entry and a file to A)
+        cands = []
+        for x, xd in layout['mans'].items():
+            a = xd['parent']
+            if a is None or a == layout['top'] or layout['mans'][a]['parent'] is None:
+                continue
+            if os.path.dirname(x) == os.path.dirname(a):
+                continue
+            cands.append((x, a))
+        if not cands:
+            return None
+        x, a = rng.choice(sorted(cands))
+        adir = os.path.dirname(a)
+        ae = [e for e in layout['mans'][a]['entries'] if e['tag'] == 'MANIFEST'
+              and e.get('_auto') is not None and mtext.full_path(adir, e) == x]
+        if not ae:
+            return None
+        ae = ae[0]
+        ae['tag'] = rng.choice(['DATA', 'DATA', 'MISC'])
+        top_entries = layout['mans'][layout['top']]['entries']
+        top_entries.insert(rng.randrange(len(top_entries) + 1),
+                           {'tag': 'MANIFEST', 'path': x, 'size': 0, 'sums': {},
+                            '_auto': list(ae['_auto'])})
+        rec['path'] = x
     elif klass == 'm-manifest-dup-wrong':
         # sub-Manifest X registered twice: correctly (hash set H1) in the top-level
         # Manifest, through which it gets loaded, and wrongly (disjoint hash set) in
